@@ -20,8 +20,12 @@ implements (b) as well; `rule_check_whole_tank` implements (a) and is used only 
 import itertools
 
 NAME = "aquarium"
-STATUS = "model+differential"
-THEOREMS = []
+# The theorem (and LEAN_CMD) are about the program REPAIRED for D17 (block_id table with `height` rows); on the unrepaired
+# source every instance with height > width raises IndexError (rule differential + program correspondence flag exactly those).
+# The driver also answers `puz_aquarium_asis` with the model of the unrepaired source.
+STATUS = "theorem"
+THEOREMS = ["Cspuz.C11.Aquarium.program_iff_rules", "Cspuz.C11.Aquarium.total"]
+LEAN_FILE = "C11_Aquarium"
 LEAN_CMD = "puz_aquarium"
 
 SHAPES = [(1, 1), (1, 2), (2, 1), (1, 3), (3, 1), (1, 4), (4, 1), (2, 2), (2, 3), (3, 2), (2, 4), (4, 2), (3, 3), (3, 4), (4, 3)]
